@@ -452,6 +452,7 @@ type Contract struct {
 	Line      int
 	Options   map[string]string
 	Uses      []string // lemmas made available (entry and loop heads)
+	Recvs     map[int][]*Clause // assumptions about the n-th channel receive
 }
 
 type Pred struct {
@@ -584,7 +585,7 @@ func clauseIndentOf(d *rawDecl, last int) int {
 
 func isClauseStart(w string) bool {
 	switch w {
-	case "requires", "ensures", "modifies", "pure", "loop", "assume", "trusted", "noinline", "serves", "option", "induction", "uses", "trigger":
+	case "requires", "ensures", "modifies", "pure", "loop", "assume", "trusted", "noinline", "serves", "option", "induction", "uses", "trigger", "recv":
 		return true
 	}
 	return strings.HasPrefix(w, "ensures[") || strings.HasPrefix(w, "requires[")
@@ -812,6 +813,33 @@ func (db *SpecDB) parseDecl(d *rawDecl) error {
 			c.NoInline = true
 		case "uses":
 			c.Uses = append(c.Uses, strings.TrimSpace(body))
+		case "recv":
+			// recv N: assume expr because "reason"
+			k := strings.Index(body, ":")
+			if k < 0 {
+				return fmt.Errorf("%s: bad recv clause", c.Key)
+			}
+			n, err := strconv.Atoi(strings.TrimSpace(body[:k]))
+			if err != nil {
+				return fmt.Errorf("%s: bad recv ordinal", c.Key)
+			}
+			rest := strings.TrimSpace(body[k+1:])
+			rest = strings.TrimSpace(strings.TrimPrefix(rest, "assume"))
+			reason := ""
+			if j := strings.LastIndex(rest, " because "); j >= 0 {
+				reason = strings.Trim(strings.TrimSpace(rest[j+9:]), "\"")
+				rest = rest[:j]
+			}
+			cl, err := mk("assume", rest)
+			if err != nil {
+				return err
+			}
+			cl.Assume = true
+			cl.Reason = reason
+			if c.Recvs == nil {
+				c.Recvs = map[int][]*Clause{}
+			}
+			c.Recvs[n] = append(c.Recvs[n], cl)
 		case "serves":
 			c.Serves = append(c.Serves, strings.Fields(body)...)
 		case "option":
